@@ -816,7 +816,7 @@ def stepRepl (st : State) (toks : List String) : State × String :=
   let get (k : String) : String := (DbProto.kvOf toks k).getD "_"
   if toks.head? != some "p.init" && w.nodes.length == 0 then (st, "bad-op") else
   -- the RPCs act on settled states
-  let w := if ["p.newterm", "p.lead", "p.elect", "p.electm", "p.add", "p.write", "p.racewrite", "p.racesync", "p.restart", "p.crash", "p.trunc", "p.cut"].contains (toks.headD "") then Repl.settle g w else w
+  let w := if ["p.newterm", "p.lead", "p.elect", "p.electm", "p.add", "p.write", "p.racewrite", "p.racesync", "p.raceredeliver", "p.restart", "p.crash", "p.trunc", "p.cut"].contains (toks.headD "") then Repl.settle g w else w
   match toks with
   | "p.init" :: _ => ({ st with world := Repl.World.init ((get "n").toNat?.getD 3) }, "ok")
   | ["p.newterm", i, t] =>
@@ -888,6 +888,15 @@ def stepRepl (st : State) (toks : List String) : State × String :=
         | some (.ok rep) => "head=" ++ toString rep.1 ++ ":" ++ toString rep.2 ++ " wal=" ++ toString h.1 ++ ":" ++ toString h.2
         | some (.error e) => showReplErr e)
     | _, _, _, _ => (st, "bad-op")
+  | ["p.raceredeliver", l, f, id] =>
+    match l.toNat?, f.toNat?, id.toNat? with
+    | some l, some f, some id =>
+      let (w', r) := Repl.raceAppendRedeliver g Facts.followerAcksDuplicateOnlyWhenSynced w l f id
+      ({ st with world := w' }, match r with
+        | none => "norace"
+        | some true => "ok"
+        | some false => "ack-before-sync")
+    | _, _, _ => (st, "bad-op")
   | ["p.trunc", f, t, o] =>
     -- a (re-)delivered Truncate request
     match f.toNat?, t.toInt?, o.toInt? with
@@ -967,6 +976,7 @@ def stepReplTracked (st : State) (toks : List String) : State × String :=
           | ["p.write", i, id] => (match i.toNat?, id.toNat? with | some i, some id => .write i id | _, _ => .none)
           | ["p.racewrite", i, id, _] => (match i.toNat?, id.toNat? with | some i, some id => .write i id | _, _ => .none)
           | ["p.racesync", i, _, id, _] => (match i.toNat?, id.toNat? with | some i, some id => .write i id | _, _ => .none)
+          | ["p.raceredeliver", i, _, id] => (match i.toNat?, id.toNat? with | some i, some id => .write i id | _, _ => .none)
           | _ => .none
         AReplSim.advance t st'.world hint
     let out := if op == "p.state" && t.flagged then out ++ " AREPL-UNEXPLAINED(" ++ t.note ++ ")" else out
